@@ -241,6 +241,6 @@ theorem C07_on_tree : Facts.processWriteSingleBatchCommit = true ∧ Facts.versi
     Facts.leaderReplayStartsAfterDbCommitOffset = true ∧ Facts.followerApplyStartsAfterCommitOffset = true ∧
     Facts.leaderReplayUsesWrapperCallbackAndEntryArgs = true ∧ Facts.followerApplyUsesWrapperCallbackAndEntryArgs = true ∧
     Facts.followerApplyResetsPooledEntry = true ∧ Facts.pebbleRunsWithoutItsOwnWal = true ∧
-    Facts.walReaderServesOnlySyncedEntries = true := by decide
+    Facts.walReaderServesOnlySyncedEntries = true ∧ Facts.trackerCompletesWaitersUnderLock = true := by decide
 
 end Oxia.C07
